@@ -705,6 +705,14 @@ pub fn run(ctx: &mut Ctx) {
             check_case(ctx, a, "lexeme");
         }
     }
+    // Every \uXXXX escape (upper and lower case hex), alone in a string: the surrogate range
+    // D800-DFFF must be rejected, everything else accepted.
+    for cp in 0u32..=0xFFFF {
+        if ctx.mine(cp as u64) {
+            check_case(ctx, &format!("\"\\u{cp:04X}\""), "unicode_escape_sweep");
+            check_case(ctx, &format!("\"a\\u{cp:04x}b\""), "unicode_escape_sweep");
+        }
+    }
     let mut k = 0u64;
     for a in text::LEXEMES {
         for b in text::LEXEMES {
